@@ -18,6 +18,8 @@ RULE = (
     'arithmetic clock model and kernel clock/due-time monitors run on every activation; '
     'non-trivial = >= 2 activities and >= 3 distinct virtual times; distinct = activation trace'
 )
+RULE = RULE + (' Further families: programs re-run with the date-condition objects of an earlier (completed, or aborted) simulation; simulations made right after an aborted one; infinite relative delays; exact Decimal / Fraction time; environments of the SimPy-style layer embedded with an initial time ahead (timeouts, agenda entries, a pacemaker made early).')
+
 LEVEL_TEXT = (
     'Exploration by runtime monitoring: resume times logged by the real code are compared with '
     'an independent arithmetic clock model (usimmon/models/clock.py) on thousands of generated '
